@@ -201,6 +201,10 @@ func c16RatOf(o slip.Object) *big.Rat {
 		if !math.IsNaN(float64(t)) && !math.IsInf(float64(t), 0) {
 			return new(big.Rat).SetFloat64(float64(t))
 		}
+	case *slip.LongFloat:
+		if r, _ := (*big.Float)(t).Rat(nil); r != nil {
+			return r
+		}
 	}
 	return nil
 }
@@ -341,6 +345,9 @@ func c16HashKeys(g *c16Gen) (wires []string, names []string) {
 	add("double-half", g.dbl(0.5))
 	add("ratio-third", g.numS('r', "1/3"))
 	add("ratio-third-copy", g.numS('r', "1/3"))
+	add("long-int", g.numS('l', "5"))
+	add("long-half", g.numS('l', "1/2"))
+	add("long-half-copy", g.numS('l', "1/2"))
 	add("double", g.dbl(1.25))
 	add("double-copy", g.dbl(1.25))
 	add("string", g.str("abc"))
